@@ -1126,6 +1126,13 @@ func parseTimeState(r *an.Run, rule string) {
 	}
 	n := 0
 	seen := map[string]bool{}
+	// the inventoried use is on the replacing side (import clean-up). Nothing that decides whether code
+	// matches may look at parse-time resolution at all: code an earlier change of the run produced has none,
+	// so the same source would match or not depending on whether it was just rewritten or freshly parsed
+	var matching map[*ssa.Function]bool
+	if cm := r.P.Func(engine, "Change.Match"); cm != nil {
+		matching = r.P.ReachableVTA(cm)
+	}
 	for _, f := range r.P.ModuleFuncs() {
 		rel := strings.TrimPrefix(strings.TrimPrefix(an.FuncPkgPath(f), an.Module), "/")
 		if strings.HasPrefix(rel, "tools") || strings.HasPrefix(rel, "internal/pgo") || rel == "internal/goast" {
@@ -1150,6 +1157,10 @@ func parseTimeState(r *an.Run, rule string) {
 				}
 				n++
 				key := rel + "|" + astTypeName(t) + "." + field
+				if matching[f] {
+					r.Fail(key+"|matching|"+short(f), in.Pos(), "%s, which runs while a change is matched, reads %s.%s: the parser resolved that for the file as it was read, and code produced by an earlier change of the same run carries none — the same source matches differently in one run than in two", short(f), astTypeName(t), field)
+					continue
+				}
 				if why, ok := parseTimeStateReads[key]; ok {
 					if !seen[key] {
 						seen[key] = true
